@@ -908,6 +908,82 @@ theorem second_call_silent (env : Env) (st : St) (op : Op) (obj : Obj) :
       rw [e2, r2, c1, c2, hid]
       exact ⟨hr.symm, he.symm⟩
 
+/-! ## epytext: the anchor-uniquifying loop of `_slugify` terminates — given distinct candidates -/
+
+/-- pigeonhole: `m` consecutive pairwise distinct candidates that all lie in `l` need `m ≤ l.length` -/
+theorem cands_in_list_le (cand : Nat → Slug) (hinj : ∀ i j, cand i = cand j → i = j) :
+    ∀ (m : Nat) (l : List Slug) (i : Nat), (∀ k, i ≤ k → k < i + m → cand k ∈ l) → m ≤ l.length
+  | 0, _, _, _ => Nat.zero_le _
+  | m + 1, l, i, h => by
+    have hi : cand i ∈ l := h i (Nat.le_refl _) (by omega)
+    have ih := cands_in_list_le cand hinj m (l.erase (cand i)) (i + 1) (fun k hk1 hk2 => by
+      have hk : cand k ∈ l := h k (by omega) (by omega)
+      have hne : cand k ≠ cand i := fun hc => by have := hinj k i hc; omega
+      exact (List.mem_erase_of_ne hne).mpr hk)
+    rw [List.length_erase_of_mem hi] at ih
+    have : 0 < l.length := List.length_pos_of_mem hi
+    omega
+
+theorem slugLoop_none (cand : Nat → Slug) (used : List Slug) :
+    ∀ (fuel i : Nat), slugLoop cand used fuel i = none → ∀ k, i ≤ k → k < i + fuel → cand k ∈ used
+  | 0, _, _, k, h1, h2 => by omega
+  | fuel + 1, i, h, k, h1, h2 => by
+    unfold slugLoop at h
+    split at h
+    · rename_i hc
+      by_cases hk : k = i
+      · subst hk; simpa using hc
+      · exact slugLoop_none cand used fuel (i + 1) h k (by omega) (by omega)
+    · simp at h
+
+theorem slugLoop_some (cand : Nat → Slug) (used : List Slug) :
+    ∀ (fuel i : Nat) (s : Slug), slugLoop cand used fuel i = some s →
+      s ∉ used ∧ ∃ j, i ≤ j ∧ s = cand j ∧ ∀ k, i ≤ k → k < j → cand k ∈ used
+  | 0, _, _, h => by simp [slugLoop] at h
+  | fuel + 1, i, s, h => by
+    unfold slugLoop at h
+    split at h
+    · rename_i hc
+      obtain ⟨a, j, hj, hs, hall⟩ := slugLoop_some cand used fuel (i + 1) s h
+      refine ⟨a, j, by omega, hs, fun k hk1 hk2 => ?_⟩
+      by_cases hk : k = i
+      · subst hk; simpa using hc
+      · exact hall k (by omega) hk2
+    · rename_i hc
+      simp only [Option.some.injEq] at h
+      subst h
+      exact ⟨by simpa using hc, i, Nat.le_refl _, rfl, fun k hk1 hk2 => by omega⟩
+
+/-- `Docstring.slugify_terminates`: if the candidates `slugify(text), slugify(text-1), slugify(text-2), …`
+are pairwise distinct (ASSUMPTION on `slugify`, checked on the real function by the harness), the
+`while s in self._section_slugs` loop ends within `len(_section_slugs) + 1` iterations, with the
+first candidate that is not used yet. -/
+theorem slugify_terminates (cand : Nat → Slug) (hinj : ∀ i j, cand i = cand j → i = j) (used : List Slug) :
+    ∃ s, slugLoop cand used (used.length + 1) 0 = some s ∧ s ∉ used ∧
+      ∃ j, s = cand j ∧ ∀ k, k < j → cand k ∈ used := by
+  cases h : slugLoop cand used (used.length + 1) 0 with
+  | none =>
+    have := cands_in_list_le cand hinj (used.length + 1) used 0
+      (fun k h1 h2 => slugLoop_none cand used _ 0 h k h1 h2)
+    omega
+  | some s =>
+    obtain ⟨a, j, _, hs, hall⟩ := slugLoop_some cand used _ 0 s h
+    exact ⟨s, rfl, a, j, hs, fun k hk => hall k (Nat.zero_le _) hk⟩
+
+/-- the assumption is needed: when appending `-i` does not change the slug (a slugify that cuts
+its result to a fixed length does that to long headings) and the slug is already used, the loop
+never ends, whatever the fuel -/
+theorem slugify_loops_without_distinct_candidates (c : Slug) (used : List Slug) (h : c ∈ used) :
+    ∀ fuel i, slugLoop (fun _ => c) used fuel i = none
+  | 0, _ => rfl
+  | fuel + 1, i => by
+    have hc : used.contains c = true := by simpa using h
+    simp only [slugLoop, hc, if_true]
+    exact slugify_loops_without_distinct_candidates c used h fuel (i + 1)
+
+example : slugLoop (fun i => if i = 0 then ['a'] else 'a' :: '-' :: (toString i).toList) [['a'], ['a', '-', '1']] 3 0
+    = some ['a', '-', '2'] := by decide
+
 /-! ## epytext: `parse` raises exactly when a fatal error was stored -/
 
 theorem epytext_raises_iff_fatal (errs : List Err) :
